@@ -129,6 +129,11 @@ func c17Corruptions(seed string) []string {
 			out = append(out, seed[:i]+c+seed[i:]) // insert
 		}
 	}
+	// the percent-encoded spelling of each single character behind the prefix (a decoder must not
+	// turn a version the ecosystem rejects as written into one it accepts)
+	for i := 5; i < len(seed); i++ {
+		out = append(out, seed[:i]+fmt.Sprintf("%%%02X", seed[i])+seed[i+1:], seed[:i]+fmt.Sprintf("%%%02x", seed[i])+seed[i+1:])
+	}
 	// scheme case change, operator mangling, prefix damage
 	rest := seed[5:]
 	slash := strings.Index(rest, "/")
